@@ -238,9 +238,12 @@ pub fn run(run: &mut Run) -> &'static str {
     let cases = run.tier.pick(200_000, 4_000_000);
     let strat = (pos_case(4..140), any::<u16>(), any::<u16>()).prop_map(|(pos, clock, number)| RoundTrip { pos, clock, number });
     run.proptest_part("round_trip", RULE, strat, cases, |c: &RoundTrip, st: &mut Stats| {
-        for (i, gp) in c.pos.positions(Mix::General, 16, st).into_iter().enumerate() {
+        // every fifth case uses the dense theme (the longest board fields), with ten-digit counters
+        let dense = c.clock % 5 == 0;
+        let mix = if dense { Mix::Dense } else { Mix::General };
+        for (i, gp) in c.pos.positions(mix, if dense { 3 } else { 16 }, st).into_iter().enumerate() {
             let mut p = gp.pos.clone();
-            if i % 3 == 0 && matches!(c.pos, PosCase::Tape(_)) {
+            if (i % 3 == 0 || dense) && matches!(c.pos, PosCase::Tape(_)) {
                 // extreme clocks and move numbers
                 p.halfmove = if p.ep.is_some() { 0 } else { BIG[(c.clock as usize + i) % BIG.len()] };
                 p.fullmove = BIG[(c.number as usize + i) % BIG.len()].max(1);
@@ -259,6 +262,9 @@ pub fn run(run: &mut Run) -> &'static str {
             }
             if p.fullmove > 100_000 {
                 st.class("huge_move_number");
+            }
+            if want.len() >= 97 {
+                st.class("fen_text_of_97_or_more_characters");
             }
             let g = to_game(&p);
             let text = fen::write(&g);
